@@ -76,7 +76,10 @@ func (w *world) competingPayloads(base payload, target *env.Proposal, other *env
 		out = append(out, competing{name: name, class: class, pl: p, block: blk, blockIs: blockIs, results: res})
 	}
 	if other != nil {
-		add("otherblock", "otherblock", func(p *payload) { p.BlockHash = bytes.Clone(other.Block.BlockHeader.Hash); p.ResultsHash = other.Results.Hash() }, other, "b2", other.Results)
+		add("otherblock", "otherblock", func(p *payload) {
+			p.BlockHash = bytes.Clone(other.Block.BlockHeader.Hash)
+			p.ResultsHash = other.Results.Hash()
+		}, other, "b2", other.Results)
 	}
 	add("height+1", "height", func(p *payload) { p.Height++ }, target, "b", target.Results)
 	add("height-1", "height", func(p *payload) { p.Height-- }, target, "b", target.Results)
